@@ -1142,6 +1142,8 @@ class Engine:
                 if not z3.is_true(simp(cond)) and not self.in_clause and not self.in_quant:
                     self.prove(cond, "model_limit", "tuple map key components within [0, 2**40)", self.cur_line)
                 return a.t * (1 << 40) + b.t
+        if isinstance(v, VObj):
+            return v.t         # objects as dict keys: identity (the classes used as keys do not define __eq__ / __hash__)
         iv = self.as_int(v)
         if iv is not None:
             return iv.t
